@@ -160,7 +160,11 @@ pub async fn run_acb_app_to_render_model(
 
     let mut all_deltas = Vec::<TxDelta>::new();
     let mut sec_render_tables = HashMap::new();
-    for (sec, deltas_res) in deltas_results_by_sec {
+    // Visit the securities in a fixed order, so that everything derived from
+    // all_deltas (e.g. the notes of the total costs tables) is deterministic.
+    let mut sorted_deltas_results: Vec<_> = deltas_results_by_sec.into_iter().collect();
+    sorted_deltas_results.sort_by(|a, b| a.0.cmp(&b.0));
+    for (sec, deltas_res) in sorted_deltas_results {
         let deltas = deltas_res.deltas_or_partial_deltas();
         let mut deltas_copy = deltas.iter().cloned().collect();
         all_deltas.append(&mut deltas_copy);
